@@ -71,6 +71,13 @@ def eval_atom(e, sc, info, cx, crate):
                 info["take"] = took
                 info["prefix_param"] = a[2][0][1]
                 return sc["itereq"]
+    if e[0] == "call" and len(e[2]) == 2 and crate is not None and (e[3] or e[1]) in crate.fns:
+        r = c04.prefix_helper(cx, crate, e, S1)
+        if r is not None and r[0][0] == "param":
+            info["fold"] = r[1]
+            info["take"] = mir.mk("call", "str::len", (r[0],), None, ())
+            info["prefix_param"] = r[0][1]
+            return sc["itereq"]
     if e[0] == "discr" and is_call(e[1], "next") and is_call(e[1][2][0], "chars") and c04.is_state_s(e[1][2][0][2][0], S1):
         return 0 if sc["empty"] else 1
     if e[0] == "discr":
